@@ -6,10 +6,6 @@ From Cheetah Require Import SpaceCharge.Cic.
 Import ListNotations.
 Open Scope Q_scope.
 
-Definition all_idx (sh : idx) : list idx :=
-  let '(nx, ny, nz) := sh in
-  flat_map (fun i => flat_map (fun j => map (fun k => (i, j, k)) (zrange nz)) (zrange ny)) (zrange nx).
-
 Definition lookup (l : list (idx * Q)) (k : idx) : Q :=
   match find (fun e => idx_eqb (fst e) k) l with Some e => snd e | None => 0 end.
 
